@@ -183,3 +183,20 @@ func NamedScalarTypes() []FieldType {
 		{"SeedMyI64", reflect.TypeOf(SeedMyI64(0))}, {"SeedMyF32", reflect.TypeOf(SeedMyF32(0))}, {"SeedMyF64", reflect.TypeOf(SeedMyF64(0))},
 	}
 }
+
+// IsZeroer implementations on types whose kind has a size (array, string, slice, map)
+type SeedZeroArr [4]byte
+
+func (z SeedZeroArr) IsZero() bool { return z == SeedZeroArr{} }
+
+type SeedZeroStr string
+
+func (z SeedZeroStr) IsZero() bool { return z == "" || z == "zero" }
+
+type SeedZeroSlice []int
+
+func (z SeedZeroSlice) IsZero() bool { return len(z) == 0 || z[0] == 0 }
+
+type SeedZeroMap map[string]int
+
+func (z *SeedZeroMap) IsZero() bool { return (*z)["x"] == 0 }
